@@ -17,5 +17,5 @@ git apply "$d/patch.diff" || { echo "RESULT $d patch-does-not-apply"; exit 2; }
 ( go build ./... > "$d/confirm_build.txt" 2>&1 ); rb=$?
 ( go test -vet=off -count=1 -run 'TestSeed' "./$pkg/" > "$d/confirm_with.txt" 2>&1 ); r1=$?
 pkgs=$(grep '^+++ b/' "$d/patch.diff" | sed 's#^+++ b/##' | xargs -n1 dirname | sort -u | sed 's#^#./#' | tr '\n' ' ')
-( go test -vet=off -count=1 -timeout 30m -skip 'TestSeed' $pkgs > "$d/confirm_existing.txt" 2>&1 ); r2=$?
+( go test -vet=off -count=1 -timeout 30m -skip 'TestSeed|TestSequenceLargeLog|TestCCADBRoots' $pkgs > "$d/confirm_existing.txt" 2>&1 ); r2=$?
 echo "RESULT $d build=$rb demo_without_change=$r0(want 0) demo_with_change=$r1(want 1) existing_tests_with_change=$r2(want 0) pkgs=[$pkgs]"
